@@ -1,8 +1,8 @@
-\* deviation alternatives are narrow (all tables)
+\* deviation alternatives are narrow (tables D_small, D_tiny, I_huge)
 \* (tools/props/C07.py generates the same text; thorough tier uses larger constants)
 CONSTANTS MaxRank = 6
-  BoundSets = {{3}, {1,3,5}}
-  Tables = {"D_small", "D_tiny", "I_small", "I_huge", "I_frac"}
+  BoundSets = {{3}, {1,3,5}} BOff = 0
+  Tables = {"D_small", "D_tiny", "I_huge"}
   MMChoices = {TRUE, FALSE}
   Mode = "direct" NSlots = 2 NKeys = 1 ReaderCfgs = {1}
   MaxAgg = 2 MaxOps = 2 Balanced = FALSE Hist = FALSE
